@@ -2274,6 +2274,8 @@ EbErrorType read_tile_group_obu(Bitstrm *bs, EbDecHandle *dec_handle_ptr, TilesI
         tg_end            = dec_get_bits(bs, tile_bits);
     }
     assert(tg_end >= tg_start);
+    if (tg_start > tg_end || tg_end >= num_tiles)
+        return EB_Corrupt_Frame; /* tile numbers index per-tile arrays of num_tiles entries */
     PRINT_FRAME("tg_start", tg_start);
     PRINT_FRAME("tg_end", tg_end);
 
